@@ -27,6 +27,8 @@ def alphabet(P):
         ("own-crlf", P + b"\r"),
         ("foreign-crlf", b"/usr/lib/libdos.so\r"),
         ("other-snoopy", b"/usr/local/lib/libsnoopy.so"),
+        ("foreign-percent", b"/usr/lib/lib%s%n%%d-100%.so"),
+        ("comment-percent", b"# 100% of %s %n %5$x %"),
     ]
 
 
@@ -48,7 +50,7 @@ def random_file(rng, P, maxlines=40):
     al = alphabet(P)
     n = rng.randrange(1, maxlines + 1)
     # bias: mostly foreign/comment lines, a few snoopy-related
-    weights = [6, 3, 3, 4, 5, 2, 2, 2, 2, 1, 1, 1, 1, 1, 1, 1, 2, 1]
+    weights = [6, 3, 3, 4, 5, 2, 2, 2, 2, 1, 1, 1, 1, 1, 1, 1, 2, 1, 1, 1]
     idx = rng.choices(range(len(al)), weights=weights, k=n)
     lines = []
     for i in idx:
@@ -199,6 +201,17 @@ def disable_check(old, new, rc, P):
 
 # ------------------------------------------------------------------ runner
 
+def stale_for(name, content, P):
+    """deterministically gives about a third of the files a left-over temporary file of an earlier, killed run (a run
+    killed before its rename leaves one behind - C20 observes that): longer than anything this run writes, or very short."""
+    h = sum(name.encode()) % 6
+    if h == 0:
+        return (content or b"") + P + b"\n" + b"/usr/lib/libremoved-meanwhile.so\n" + P + b"\n# tail of an older version\n" * 3
+    if h == 1:
+        return b"/u"
+    return None
+
+
 class Ctl:
     def __init__(self, build, work):
         self.ctl = build.snoopyctl
@@ -207,7 +220,16 @@ class Ctl:
         self.env = {"PATH": "/usr/bin:/bin", "SNOOPY_TEST_LD_SO_PRELOAD_PATH": self.file,
                     "SNOOPY_TEST_LIBSNOOPY_SO_PATH": build.lib}
 
-    def put(self, content):
+    def put(self, content, stale=None):
+        """stale: bytes to leave in the temporary file of an earlier, killed run (None = no such file)."""
+        tmp = self.file + ".snoopy-tmp"
+        try:
+            os.unlink(tmp)
+        except FileNotFoundError:
+            pass
+        if stale is not None:
+            with open(tmp, "wb") as f:
+                f.write(stale)
         if content is None:
             try:
                 os.unlink(self.file)
